@@ -5,7 +5,7 @@ EXTENDS Deb822Struct, GenLib
 b(s) == s
 x == <<120>>  ab == <<97, SP, 98>>  acb == <<97, COMMA, SP, 98>>  l12 == <<108, 49, LF, 108, 50>>
 hashline == <<108, 49, LF, HASH, 50>>                   \* "l1\n#2" : a second line that starts with '#' is text
-Rec1 == [S : {<<>>, x, ab, l12, hashline}, Renamed : {<<>>, <<114>>}, Req : {<<>>, <<113>>}, Skip : {<<>>, <<104, 105, 100>>},
+Rec1 == [S : {<<>>, x, ab, l12, hashline, <<120, LF, LF>>, <<120, LF, 121, LF, LF, LF>>}, Renamed : {<<>>, <<114>>}, Req : {<<>>, <<113>>}, Skip : {<<>>, <<104, 105, 100>>},
          Multi : {<<>>, <<109, 49, LF, 109, 50>>, <<111, 110, 101>>, <<109, 49, LF, SP, HASH, SP, 109, 50, LF, 109, 51>>}]
 Rec2 == [I : {0, 1, -7, 2147483647}, U : {0, 5, 1023, 1024, 65536, 2147483647}, B : BOOLEAN, ReqI : {0, 3}, ReqB : BOOLEAN]
 StrLists == {<<>>, <<<<97>>>>, <<<<98, SP, 99>>>>, <<<<97>>, <<98, SP, 99>>>>, <<<<98, SP, 99>>, <<97>>>>}
